@@ -220,9 +220,24 @@ CHECKS = {
             "helpers branch on (empty, one element, first/last index, separator at start/end/adjacent, unequal lengths). slice with indices "
             "beyond the list and parse_int without leading digit are not judged (undocumented).",
             "DESIGN.md section 4 C19"),
+    "C20": ("model_checking",
+            "explicit session model of the language server; every model trace replayed against `ucg lsp` over stdio, differential oracle "
+            "against a fresh server, ucglib's parser and the builder",
+            "Model: state = uri -> text of the open documents over a fixed on-disk workspace (a.ucg importing lib.ucg); messages open, change, "
+            "close and the five requests. Replayed, one server process per trace with a barrier request after every message: all sequences of "
+            "1..2 notifications over 22 messages (2 documents x {open, change} x 5 texts + close), all of length 3 over 14 messages (thorough: "
+            "22, plus length 4 over 14), legal and protocol-violating alike, and one 30-message covering tour; afterwards the last "
+            "diagnostics of every open document must equal those of a fresh server opened on that text. For each of 17 texts (valid, syntax "
+            "and type errors, empty, CRLF, non-ASCII, unterminated string, rich): hover / definition / completion at every token start, "
+            "inside every token, at every line end and beyond the text, semanticTokens/full and 4 workspace/symbol queries: every request "
+            "answered, every range inside its document; the syntax diagnostic must sit at the parser's position; a text that builds gets none.",
+            "Sessions of up to 30 messages are far beyond any exhaustive bound: the tour is declared as a covering tour, not as exhaustive. "
+            "Range end characters beyond the line are accepted (clamped by the protocol); start characters are not. Malformed JSON-RPC "
+            "parameters are outside the property.",
+            "DESIGN.md section 4 C20"),
 }
 
-CLAIMED = ["C01", "C02", "C03", "C04", "C05", "C06", "C07", "C08", "C09", "C10", "C11", "C12", "C13", "C14", "C15", "C16", "C17", "C18", "C19"]
+CLAIMED = ["C01", "C02", "C03", "C04", "C05", "C06", "C07", "C08", "C09", "C10", "C11", "C12", "C13", "C14", "C15", "C16", "C17", "C18", "C19", "C20"]
 
 NOT_YET = "check not built yet in this round; design in DESIGN.md section 4 (bounded-exhaustive enumeration applies)"
 
